@@ -143,3 +143,85 @@ theorem C04_kept_mem (stash : List (Int × InMsg)) (n : Int) (m : InMsg) : (n, m
 theorem C04_kept_others (stash : List (Int × InMsg)) (n k : Int) (m m' : InMsg) (hk : k ≠ n) (h : (k, m') ∈ stash) :
     (k, m') ∈ stashInsert stash n m := by
   simp [stashInsert, h, hk]
+
+/-! ### leaving recovery: the stash drain (`C04_drain`) -/
+
+/-- **C04 (drain, nothing left behind)**: whenever a message processed in a recovery state takes the session back to
+    normal operation, (1) the triggering message was handled first, (2) stash entries were then taken one at a time, each
+    numbered exactly the number expected at that moment, and handed to the in-session handler (`Drained`: in sequence, by
+    C01 each application message among them is delivered exactly once), (3) what is left of the stash contains no
+    message with the number now expected, and (4) the whole gap was covered (`fin < target`). -/
+theorem C04_drain (s : Sess) (m : InMsg) (stash : List (Int × InMsg)) (cur fin : Int)
+    (h : curResend s = some (stash, cur, fin)) (hres : (fixMsgInCore s m).2 = .inSession) :
+    ∃ rest, Drained (inSessionFixMsgIn s m).1 (sharedStash (inSessionFixMsgIn s m).1 (inSessionFixMsgIn s m).2 stash)
+        (fixMsgInCore s m).1 rest ∧
+      rest.find? (·.1 == (fixMsgInCore s m).1.store.target) = none ∧
+      fin < (inSessionFixMsgIn s m).1.store.target := by
+  rw [fixMsgInCore_rec s m stash cur fin h] at hres ⊢
+  exact resendFixMsgIn_left s stash cur fin m hres
+
+/-- … and none of it is requested again: the drain creates no ResendRequest -/
+theorem C04_drain_no_request (fuel : Nat) (s : Sess) (stash : List (Int × InMsg)) (last : SState)
+    (h : (curResend s).isSome = true) : Q 0 s (drainStash fuel s stash last).1 :=
+  q_drainStash fuel s stash last h
+
+/-- the drain itself, for every stash and every state: it stops only when a stashed message logged the session off or
+    when no stashed message carries the expected number -/
+theorem C04_drain_spec (s : Sess) (stash : List (Int × InMsg)) (last : SState) :
+    Drained s stash (drainStash (stash.length + 1) s stash last).1 (drainStash (stash.length + 1) s stash last).2.2 ∧
+    ((drainStash (stash.length + 1) s stash last).2.1.loggedOn = false ∨
+     (drainStash (stash.length + 1) s stash last).2.2.find?
+        (·.1 == (drainStash (stash.length + 1) s stash last).1.store.target) = none) :=
+  drainStash_spec _ s stash last (by omega)
+
+/-- **C04 (drain, the peer skipped nothing)**: everything was requested (`cur = 0`), the last missing message (number
+    `T = target`, `fin ≤ T`) arrives and is clean (plain kind, gates passed, accepted by the application), and the
+    stash is the contiguous run `T+1 … T+cnt` of clean messages: the message and then the stash entries `ms` are delivered
+    in ascending order (`foldl deliver`: callback, then the advance by one, per message), the stash is used up, the
+    session is back in normal operation and expects `T+cnt+1` = one past the highest message received. -/
+theorem C04_drain_contiguous (s : Sess) (stash : List (Int × InMsg)) (fin : Int) (m : InMsg) (cnt : Nat)
+    (h : curResend s = some (stash, 0, fin))
+    (hm : Clean s s.store.target m) (hg : getBool m 123 ≠ .garbled) (hfin : fin ≤ s.store.target)
+    (hclean : ∀ p ∈ stash, Clean s p.1 p.2)
+    (hrange : ∀ p ∈ stash, s.store.target + 1 ≤ p.1 ∧ p.1 < s.store.target + 1 + cnt)
+    (hcover : ∀ i : Nat, i < cnt → ∃ mi, (s.store.target + 1 + i, mi) ∈ stash) :
+    ∃ ms : List InMsg, ms.length = cnt ∧
+      (∀ (i : Nat) (hi : i < ms.length), (s.store.target + 1 + i, ms[i]) ∈ stash) ∧
+      fixMsgInCore s m = ((m :: ms).foldl deliver s, .inSession) ∧
+      ((m :: ms).foldl deliver s).store.target = s.store.target + cnt + 1 ∧
+      callbacks ((m :: ms).foldl deliver s).log = callbacks s.log ++ cbList s.store.target (m :: ms) := by
+  obtain ⟨ms, hlen, hidx, hres⟩ := resend_complete s stash fin m cnt h hm hg hfin hclean hrange hcover
+  refine ⟨ms, hlen, hidx, hres, ?_, callbacks_foldl_deliver _ s⟩
+  rw [foldl_deliver_target, List.length_cons, hlen]; omega
+
+/-! ### the gap detected on the Logon itself -/
+
+/-- **C04 (Logon gap)**: in the `logon` state, whenever the Logon handler reports a gap (`n` above the expected `t`) the
+    ResendRequest `[t, infinity]` (or the first chunk) is issued — queued behind the Logon reply, the session not yet
+    counting as logged on — and recovery starts with an empty stash and gap end `n-1`; `t` is the expected number. -/
+theorem C04_logon_gap (s s' : Sess) (m : InMsg) (n t : Int) (hk : kindOf m = "A")
+    (h : handleLogon s m = (s', some (.rej (.tooHigh n t)))) :
+    t = s'.store.target ∧ getInt m 34 = .val n ∧ n > t ∧
+    logonFixMsgIn s m =
+      (sendInReplyTo s' (mkOut "2" [(7, toString t), (16, toString (chunkEnd s'.cfg t (n - 1)))]),
+       .resend [] (chunkCur s'.cfg t (n - 1)) (n - 1)) := by
+  obtain ⟨ht, hn, hgt⟩ := handleLogon_high s s' m n t h
+  refine ⟨ht, hn, hgt, ?_⟩
+  rw [logonFixMsgIn_high s s' m n t hk h, ← ht]; rfl
+
+/-- and the Logon handler does report the gap for every Logon the application accepts that passes the gates, asks for
+    no reset and carries a number above the expected one (the expected number is still the one before the Logon) -/
+theorem C04_logon_gap_detected (s : Sess) (m : InMsg) (n : Int) (hst : s.st = .logon) (hk : kindOf m = "A")
+    (hfixt : (s.cfg.bs == 5 && !(m.f.has 1137)) = false)
+    (hv : validate m = none) (hcb : callbackVerdict m = none)
+    (hr1 : (if s.cfg.initiator then false else s.cfg.resetOnLogon) = false) (hr2 : logonResetFlag m = false)
+    (hb : checkBeginString s m = none) (hc : checkCompID s m = none) (ht : checkSendingTime s m = none)
+    (hn : getInt m 34 = .val n) (hgt : n > s.store.target) :
+    ∃ s', Kept s s' ∧
+      fixMsgInCore s m =
+        (sendInReplyTo s' (mkOut "2" [(7, toString s.store.target), (16, toString (chunkEnd s.cfg s.store.target (n - 1)))]),
+         .resend [] (chunkCur s.cfg s.store.target (n - 1)) (n - 1)) := by
+  obtain ⟨s', hl, hkept⟩ := handleLogon_gap s m n hfixt hv hcb hr1 hr2 hb hc (Or.inr ht) hn hgt
+  refine ⟨s', hkept, ?_⟩
+  have : fixMsgInCore s m = logonFixMsgIn s m := by simp [fixMsgInCore, hst]
+  rw [this, logonFixMsgIn_high s s' m n _ hk hl, hkept.target, hkept.cfg]; rfl
